@@ -25,7 +25,8 @@ use vengine::{Fail, Obs};
 pub fn case_timeout_s(sub: &str) -> u64 {
     match sub {
         "glm" => 6,
-        _ => 30,
+        "binary" => 10,
+        _ => 20,
     }
 }
 pub const SHRINK_BUDGET_S: u64 = 90;
